@@ -295,11 +295,17 @@ class FlowFamily(ScenarioFamily):
         ep = {"kind": "origin", "tls": tls,
               "h2": {"settings": st, "events": events,
                      "wu": r.choice(["eager", "tiny", "late", "stream_first", "conn_first",
-                                     "batched"]),
+                                     "batched", "thrifty", "thrifty"]),
                      "wu_step": r.choice([1, 7, 100, 5000]),
                      "wu_delay": r.choice([0.01, 0.2, 0.5]),
                      "wu_batch": r.choice([1000, 20000, 60000]),
                      "interleave": r.choice(["random", "seq"])}}
+        if ep["h2"]["wu"] == "thrifty":
+            # a server that counts its credit to the byte does not move the window size
+            # under the upload as well (its arithmetic would run ahead of the SETTINGS ACK)
+            for e in events:
+                e["settings"].pop("initial_window_size", None)
+            events[:] = [e for e in events if e["settings"]]
         if tls:
             ep["alpn"] = ["h2", "http/1.1"]
         n_up = r.choice([1, 1, 2, 3])
